@@ -34,6 +34,17 @@ mod ffi {
         // the usual way to dodge a Rust keyword: keyword + underscore, underscore + keyword (case conversion may strip the underscore)
         pub fn keywords4(&self, in_: u8, for_: i8, static_: u16, enum_: u32, _new: u8, class_: &str, _default: Option<u8>, typeof_: &Beta, _delete: Leaf) -> u8 { in_ }
     }
+    // cfg-gated methods (with and without a writer, on and off): the wrapper the macro emits must be gated exactly like the method
+    impl Beta {
+        #[cfg(feature = "absent_feature")]
+        pub fn gated_write(&self, w: &mut DiplomatWrite) { let _ = core::fmt::Write::write_str(w, "x"); }
+        #[cfg(feature = "absent_feature")]
+        pub fn gated_plain(&self, x: u8) -> u8 { x }
+        #[cfg(feature = "absent_feature")]
+        pub fn gated_result(&self, w: &mut DiplomatWrite) -> Result<(), Color> { Ok(()) }
+        #[cfg(not(feature = "absent_feature"))]
+        pub fn ungated_write(&self, w: &mut DiplomatWrite) { let _ = core::fmt::Write::write_str(w, "y"); }
+    }
     impl Beta {
         pub fn make_alpha(&self) -> Box<Alpha> { Box::new(Alpha(self.0)) }
         pub fn describe(&self, a: Option<&Alpha>, w: &mut DiplomatWrite) -> Result<(), Color> { Ok(()) }
